@@ -270,11 +270,13 @@ class MPIExec(LaunchMethod):
 
             tmp = list()
             for slot in slots:
-                cores = slot['cores']
-                if len(cores) > 1:
-                    tmp.append('%s-%s' % (cores[0]['index'], cores[-1]['index']))
+                idxs = [core['index'] for core in slot['cores']]
+                if len(idxs) > 1 and \
+                        idxs == list(range(idxs[0], idxs[-1] + 1)):
+                    tmp.append('%s-%s' % (idxs[0], idxs[-1]))
                 else:
-                    tmp.append(str(cores[0]['index']))
+                    # a range would also bind cores held by other tasks
+                    tmp.append(','.join([str(idx) for idx in idxs]))
             core_ids = ':'.join(tmp)
 
           # # FIXME: make this readable please
